@@ -308,7 +308,9 @@ P = {
          'independently): key_is_binding — for every signature (any number of positional-or-keyword and keyword-only parameters, any '
          'defaults), every list of ignored names and every valid call, the dictionary that is serialised equals Python\'s binding with '
          'defaults filled minus ignored names (sorted by name); hence same_binding_same_key for all spellings, ignored_never_matter, '
-         'different_binding_different_key (for an encoder injective on sorted dictionaries), method_gets_binding; '
+         'different_binding_different_key (for an encoder injective on sorted dictionaries) and different_binding_different_key_json — the same for '
+         'json.dumps(sort_keys=True) itself, whose injectivity is PROVED (Json.dumpsRaw_injective: prefix code over the ensure_ascii escapes incl. '
+         'surrogate pairs, separators and nested containers; encJ_injective) —, method_gets_binding; '
          'methods_and_versions_disjoint (sub-cache name determines method and version) and, through M-Cache, no shared file; '
          'force_cache / only_cache / store_cache_value stated against the C14 theorems. Correspondence: generated signatures (0-5 '
          'parameters, mixed kinds), 2-6 spellings per binding incl. reordered nested mappings, perturbed bindings, confusable sibling '
@@ -316,8 +318,8 @@ P = {
          'InMemoryCache, bare @cached — behind a recording proxy; compared per call: key text (json.dumps re-implemented in the model, '
          'literal), sub-cache name, result, method-call count, entry count, and Lean valid/binding against inspect.signature.bind + '
          'apply_defaults; dictionary oracle over Python\'s binding.',
-    note='partial: injectivity of json.dumps(sort_keys=True) on JSON-distinguishable values is a hypothesis of different_binding_different_key '
-         '(exercised by the correspondence, not proved); argument values are JSON-like; *args/**kwargs signatures, custom key functions and '
+    note='argument values are JSON values in canonical form with number tokens as Python prints them (non-empty, free of structural characters, not a '
+         'literal) — the remaining hypothesis of the injectivity theorem; that the model text IS json.dumps is tied by the literal key comparison; *args/**kwargs signatures, custom key functions and '
          'parameters named like the control keywords or `obj` are outside the domain; outside the domain the code does not reject calls '
          'Python would reject (surplus positionals are bound to keyword-only parameters or dropped) — modelled and compared as is',
     technique='Lean 4 proof (loop invariant as dictionary lookup, permutation/sorting lemmas) + differential correspondence over spellings',
